@@ -258,7 +258,7 @@ def rank_table(values):
     return {v: i for i, v in enumerate(u)}
 
 
-def encode_steps(steps, H, W, vr, vc, ew, ns):
+def encode_steps(steps, H, W, vr, vc, ew, ns, kscale=1):
     """tree operations of one real sweep -> StatusTree_Trace case in "bridge" mode.  Floats become ranks
     (order-isomorphic, SMALLEST_GRAD -> -1000); rows are renumbered compactly per trace (row ids are only
     names); the per-row interpolation flags of every query come from a float64 re-evaluation."""
@@ -292,9 +292,9 @@ def encode_steps(steps, H, W, vr, vc, ew, ns):
     def A(v):
         return SMALL if v <= -1e21 else arank[v]
 
-    def K(v):
-        k = int(round(v))
-        if k != v:
+    def K(v):                            # keys are squared map distances; kscale = cscale**2 makes them integers
+        k = int(round(v * kscale))
+        if abs(k - v * kscale) > 1e-9:
             raise ValueError("non-integer key %r" % v)
         return k
 
@@ -371,6 +371,25 @@ def encode_steps(steps, H, W, vr, vc, ew, ns):
     return {"n": n, "mode": "bridge", "events": events}, ops, nborder
 
 
+def lay_out(data, layout):
+    """the same values in another memory layout"""
+    if layout == "F":
+        return np.asfortranarray(data)
+    if layout == "T":                     # transposed view of a C-ordered (W, H) buffer
+        return np.ascontiguousarray(data.T).T
+    if layout == "S":                     # every second element of a larger buffer in both directions
+        big = np.zeros((2 * data.shape[0] + 1, 2 * data.shape[1] + 1), dtype=data.dtype)
+        big[1::2, 1::2] = data
+        return big[1::2, 1::2]
+    if layout == "R":                     # negative strides
+        return np.ascontiguousarray(data[::-1, ::-1])[::-1, ::-1]
+    return np.ascontiguousarray(data)
+
+
+def relayout(data, j):
+    return lay_out(np.array(data), j.get("layout", "C"))
+
+
 def run_los(j):
     H, W = j["H"], j["W"]
     vr, vc, ew, ns = j["vr"], j["vc"], j["ew"], j["ns"]
@@ -382,16 +401,31 @@ def run_los(j):
     # the model is evaluated on the values the raster really holds (after the dtype conversion)
     terrf = [[float(v) for v in row] for row in data.astype(np.float64)]
     terr = [[to_frac(v) for v in row] for row in terrf]
-    ras = xr.DataArray(data, dims=["y", "x"], coords={"y": np.array(j["ys"], dtype=float),
-                                                      "x": np.array(j["xs"], dtype=float)})
+    data = lay_out(data, j.get("layout", "C"))
+    cs = int(j.get("cscale", 1))          # true cell size = (ew / cs, ns / cs)
+
+    def mk():
+        return xr.DataArray(data.copy(order="K") if j.get("layout", "C") in ("C", "F") else relayout(data, j),
+                            dims=["y", "x"], coords={"y": np.array(j["ys"], dtype=float),
+                                                     "x": np.array(j["xs"], dtype=float)})
+    ras = mk()
+    before = np.array(ras.values, dtype=np.float64, copy=True)
     obs, tgt = j["obs"], j["tgt"]
+    ox, oy = j["ox"], j["oy"]
+    xt = j.get("oxtype", "float")
+    if xt == "int":
+        ox, oy = int(ox), int(oy)
+    elif xt == "npfloat":
+        ox, oy = np.float64(ox), np.float64(oy)
+    elif xt == "npint":
+        ox, oy = np.int64(ox), np.int32(oy)
     case = {"kind": "los", "H": H, "W": W, "vr": vr, "vc": vc, "ew": ew, "ns": ns, "tag": j.get("tag", ""),
             "job": j}
     _cap.clear()
     del _steps[:]
     _rec_on[0] = bool(j.get("steps")) and INTERP
     try:
-        out = V.viewshed(ras, x=j["ox"], y=j["oy"], observer_elev=obs, target_elev=tgt)
+        out = V.viewshed(ras, x=ox, y=oy, observer_elev=obs, target_elev=tgt)
         out = np.asarray(out.values, dtype=np.float64)
     except Exception as ex:
         _rec_on[0] = False
@@ -400,12 +434,34 @@ def run_los(j):
     _rec_on[0] = False
     a = _cap.get("args")
     case["svr"], case["svc"] = (a[0], a[1]) if a else (-1, -1)
-    case["sew"], case["sns"] = (int_or(abs(a[4])), int_or(abs(a[5]))) if a else (-999, -999)
+    case["sew"], case["sns"] = (int_or(abs(a[4]) * cs), int_or(abs(a[5]) * cs)) if a else (-999, -999)
     case["order"] = order_case(_cap["rcts"], _cap["aes"]) if a else []
+    steps_first = list(_steps)
+    # ---- repeated calls on the SAME raster object: another observer in between, then the first call again;
+    # the result must equal the fresh result and the input values must be untouched (the function may widen
+    # the dtype of the object it was given, never change a value)
+    case["rep"] = 1
+    if j.get("repeat"):
+        try:
+            other = V.viewshed(ras, x=j["xs"][-1 if vc == 0 else 0], y=j["ys"][-1 if vr == 0 else 0],
+                               observer_elev=obs, target_elev=tgt)
+            again = np.asarray(V.viewshed(ras, x=ox, y=oy, observer_elev=obs, target_elev=tgt).values,
+                               dtype=np.float64)
+            fresh = np.asarray(V.viewshed(mk(), x=ox, y=oy, observer_elev=obs, target_elev=tgt).values,
+                               dtype=np.float64)
+            same = (np.array_equal(again, out) and np.array_equal(fresh, out)
+                    and np.array_equal(np.asarray(ras.values, dtype=np.float64), before)
+                    and other.shape == out.shape)
+            case["rep"] = 1 if same else 0
+        except Exception as ex:
+            case["rep"] = 0
+            case["rep_error"] = "%s: %s" % (type(ex).__name__, ex)
+    del _steps[:]
+    _steps.extend(steps_first)
     vp_elev = terr[vr][vc] + to_frac(obs)
     vpf = terrf[vr][vc] + float(obs)
     target = to_frac(tgt) if tgt > 0 else Fraction(0)
-    blocks, nborder = bridge(H, W, terr, terrf, vr, vc, vp_elev, vpf, target, ew, ns)
+    blocks, nborder = bridge(H, W, terr, terrf, vr, vc, vp_elev, vpf, target, ew / cs, ns / cs)
     scale = max(1.0, max(abs(v) for row in terrf for v in row), abs(vpf))
     cells = []
     for r in range(H):
@@ -421,12 +477,12 @@ def run_los(j):
                 dhs = 1 if dh > 0 else -1
             else:
                 dhs = 2
-            dh4ok = 1 if (dh * 4).denominator == 1 and abs(dh * 4) < 30000 else 0
+            dh4ok = 1 if (dh * 4).denominator == 1 and abs(dh * 4) < 30000 and cs == 1 else 0
             dh4 = int(dh * 4) if dh4ok else 0
             if (r, c) == (vr, vc):
                 exp = 180.0
             else:
-                d = math.hypot((c - vc) * ew, (r - vr) * ns)
+                d = math.hypot((c - vc) * ew / cs, (r - vr) * ns / cs)
                 exp = 90.0 + math.degrees(math.atan(float(dh) / d))
             inrange = (not math.isnan(v)) and 0.0 <= v <= 180.0
             row.append({"neg1": 1 if v == -1.0 else 0, "is180": 1 if v == 180.0 else 0,
@@ -440,7 +496,7 @@ def run_los(j):
     case["nborder"] = nborder
     case["raw"] = [[None if math.isnan(float(v)) else float(v) for v in row] for row in out]
     if j.get("steps") and INTERP:
-        tcase, ops, nb2 = encode_steps(list(_steps), H, W, vr, vc, ew, ns)
+        tcase, ops, nb2 = encode_steps(list(_steps), H, W, vr, vc, ew, ns, kscale=cs * cs)
         case["tree"] = tcase
         case["ops"] = ops
         case["nborder_tree"] = nb2
